@@ -12,6 +12,7 @@
    a function of the remote peer id and is injective (guaranteed for real connections by C04/C18).
    [open_enrolled evs c]: c was enrolled while open and no ConnClosed c has been delivered since. *)
 From Coq Require Import List NArith ZArith Bool.
+From MevVerif Require check.Check_C14.
 From MevVerif Require Import lib.Bytes model.PeerRegistry proofs.PeerRegistry_proofs.
 Import ListNotations.
 Open Scope N_scope.
@@ -74,15 +75,34 @@ Theorem C14_notifications_only_on_close : forall evs e, wf (evs ++ [e]) ->
 Proof. exact notes_other_events. Qed.
 Print Assumptions C14_notifications_only_on_close.
 
-(* Every handler invocation (s, p, pe, f) was for a peer that was registered at the moment its
-   stream was tracked (f = true) and was handed an address and role proven in a handshake on a
-   then-open connection of that very peer; in particular no handler ever runs for a peer that
-   never completed a handshake. *)
+(* Every handler invocation (s, p, pe, f), with its place in the history:
+   - the identity pe handed to the handler is the record under which p was registered when the
+     wrapper looked the peer up (the first event of stream s), and that record was proven by a
+     handshake on a then-open connection of p BEFORE that lookup;
+   - later, when the stream was tracked (addStream), p was registered (f = true).
+   In particular no handler ever runs for a peer that never completed a handshake. *)
 Theorem C14_handlers : forall evs, wf evs ->
   forall s p pe f, In (s, p, pe, f) (started (run evs)) ->
-    f = true /\ exists k, In (Enrol (p, k) pe false) evs.
-Proof. exact handlers. Qed.
+    f = true /\
+    (exists pre post, evs = pre ++ SLookup s p :: post /\ get s (sw (run pre)) = None /\
+        get p (overlays (run pre)) = Some pe /\ exists k, In (Enrol (p, k) pe false) pre) /\
+    (exists pre post, evs = pre ++ STrack s :: post /\ get s (sw (run pre)) = Some (SwLooked p pe) /\
+        registered (run pre) p = true).
+Proof. exact handlers_ordered. Qed.
 Print Assumptions C14_handlers.
+
+(* OBSERVATION (not a violation of the property text as read in DESIGN section 7, recorded for the
+   report): the stronger reading "the record in force when the stream is tracked" does NOT hold of
+   the code.  The wrapper keeps the *p2p.Peer of its first getPeer; if the peer disconnects and
+   registers again with another role between that lookup and addStream, the handler runs for a
+   registered peer, with a live context, and is handed the role of the previous registration. *)
+Theorem C14_handlers_current_refuted : exists evs s p pe,
+  wf evs /\ In (s, p, pe, true) (started (run evs)) /\
+  exists pre post pe', evs = pre ++ STrack s :: post /\
+    get p (overlays (run pre)) = Some pe' /\ pe' <> pe /\ registered (run evs) p = true /\
+    ctx_cancelled (run evs) s = false.
+Proof. exact handlers_current_refuted. Qed.
+Print Assumptions C14_handlers_current_refuted.
 
 (* At every moment a wrapper run past addStream belongs to a registered peer or its context has
    been cancelled. *)
@@ -131,6 +151,52 @@ Theorem C14_outbound_never_announces : outbound_announces = false.
 Proof. exact outbound_never_announces. Qed.
 Print Assumptions C14_outbound_never_announces.
 
+(* Outbound (Service.Connect, from the completed handshake on: isConnected short cut, addPeer, and
+   the getPeer test added by db8f6a6 -- call sites regenerated from the source): Connect reports a
+   peer to its caller (discovery, which then adds it to the topology) only if that peer is
+   registered when Connect returns; it withholds nothing (an error leaves the peer unregistered);
+   its effect on the registry is that of the enrolment or nothing. *)
+Theorem C14_connect_success_registered : forall r c pe closed pe',
+  snd (connect r c pe closed) = Some pe' -> registered (fst (connect r c pe closed)) (remote c) = true.
+Proof. exact connect_success_registered. Qed.
+Print Assumptions C14_connect_success_registered.
+
+Theorem C14_connect_failure_unregistered : forall r c pe closed,
+  snd (connect r c pe closed) = None -> registered (fst (connect r c pe closed)) (remote c) = false.
+Proof. exact connect_failure_unregistered. Qed.
+Print Assumptions C14_connect_failure_unregistered.
+
+Theorem C14_connect_state : forall r c pe closed,
+  fst (connect r c pe closed) = r \/ fst (connect r c pe closed) = step r (Enrol c pe closed).
+Proof. exact connect_state. Qed.
+Print Assumptions C14_connect_state.
+
+(* isConnected (used by Connect and the bootstrapper) agrees with the registration *)
+Theorem C14_isconnected_iff_registered : forall evs p, wf evs ->
+  is_connected (run evs) p = get p (overlays (run evs)).
+Proof. exact is_connected_iff_registered. Qed.
+Print Assumptions C14_isconnected_iff_registered.
+
+(* removePeer is not modelled: none of the package's functions calls it (one has_call anchor per
+   function that exists today; a function added later is not covered -- see props). *)
+Theorem C14_remove_peer_unused : remove_peer_callers = repeat false 14.
+Proof. exact remove_peer_unused. Qed.
+Print Assumptions C14_remove_peer_unused.
+
+(* The checker bin/check evaluates on the implementation's observations accepts the model's own
+   observations -- PARTIAL: proved for the per-state clauses panic, maps-disagree and stale-peer /
+   missing-peer on every reachable state whose history respects libp2p's order (w3) and fits the
+   case's universe.  Missing: the clauses that compare consecutive observations (notifications,
+   handler starts, reset of unknown peers, contexts, addPeer's answer) and the threading through
+   Check_C14.check_from. *)
+Theorem C14_checker_accepts_model_partial : forall np nc na ns evs,
+  wf evs -> w3 evs -> bounded np nc na evs ->
+  panicked (run evs) = false /\
+  Check_C14.maps_agree np na (Check_C14.snap_of np na ns (run evs)) = true /\
+  Check_C14.check_registered np nc evs (Check_C14.snap_of np na ns (run evs)) = None.
+Proof. exact checker_accepts_model_partial. Qed.
+Print Assumptions C14_checker_accepts_model_partial.
+
 (* Blocking a peer (Service.blockPeer) does not touch the registry: a registered peer that is blocked
    stays registered until its last connection closes, and then gets its one notification like any
    other (C14_last_close applies unchanged).  Anchored on the source: blockPeer calls no registry
@@ -170,6 +236,12 @@ Theorem C14_handlers_refuted : exists evs s p pe,
   ctx_cancelled (run_v0_wrapper evs) s = false.
 Proof. exact handlers_refuted_v0. Qed.
 Print Assumptions C14_handlers_refuted.
+
+(* Connect before db8f6a6 (connect_v2) reported a peer it had not registered. *)
+Theorem C14_connect_refuted : exists r c pe closed pe',
+  snd (connect_v2 r c pe closed) = Some pe' /\ registered (fst (connect_v2 r c pe closed)) (remote c) = false.
+Proof. exact connect_refuted_v2. Qed.
+Print Assumptions C14_connect_refuted.
 
 (* The first form of the closed-connection repair (add_peer_v1: the closed branch answered whether
    the address was known) announced a peer that it had not registered. *)
